@@ -14,7 +14,20 @@
                                                  else pop min(100,len); `writeFunction(b)`   → `writerPop` (→ writing)
                              return from `cond.Wait()` (re-locks; empty ⇒ return nothing)    → `writerWake`
                              `writeFunction` returns (the broker's latency)                  → `writeDone`
-    Close()                  `Add(2); close(chan)` … `Wait()` returns                        → `close` … `closeReturn`
+    Close()                  `runningWorkers.Add(2); close(chan)` … `Wait()` returns                        → `close` … `closeReturn`
+    Go scheduler             a worker goroutine spawned by the constructor runs for the first time → `writerStart`, `batchStart`
+
+  Worker start-up.  `NewWriterWithTopic` only SPAWNS the two workers (`go writer.writingLoop()`,
+  `go writer.batchingLoop()`): until the scheduler runs a worker for the first time it has executed
+  nothing (`wStarted` / `bStarted` false, program counter at the top of its function), and producers
+  and Close() need not wait for that — events can be accepted and Close() called while both workers
+  are still unstarted.  `runningWorkers` (a sync.WaitGroup) is the counter `wg`: Close() does
+  `Add(2)` BEFORE it closes the channel — the workers are counted by the goroutine that waits for
+  them, whether they have run yet or not —, each worker does `Done()` as its last action, and
+  `Wait()` returns (`closeReturn`) when the counter is 0.  `Cfg.selfRegister` describes the variant
+  that is NOT the code: every worker counts itself at its own start (`Add(1)` as its first
+  statement, `Done()` deferred) and Close() adds nothing — then a Close() that runs before a worker
+  was scheduled finds the counter at 0 and returns with accepted events still in the channel.
 
   The hand-over is a plain blocking channel send (go/ast: one send statement, no select, no
   goroutine — `C19_handover_is_code`): `publish p` is enabled only while the channel has room, it
@@ -33,6 +46,10 @@
   `legacyCfg`, the code before them:
     drainOnDone    the writing loop empties the buffer after the done signal before returning
     releaseSticky  ReleaseGoroutines leaves a flag that makes PopMultiple return instead of waiting
+  A third switch, `selfRegister`, is `false` in both: it describes a variant that is not and was
+  not the code (who counts the workers in `runningWorkers`, see "Worker start-up" above).  `Done()`
+  is `wg - 1`; Go panics on a negative counter, and the model never gets there: a worker that
+  finishes finds the counter at ≥ 1 (`Proofs/Writer.lean: InvW.counted`).
 -/
 import ControlModel.Basic
 
@@ -46,6 +63,9 @@ structure Cfg where
   batchMax : Nat                -- argument of PopMultiple (100 in the code)
   drainOnDone : Bool := false
   releaseSticky : Bool := false
+  /-- false (the code): Close() counts both workers (`Add(2)`) before it closes the channel;
+      true (NOT the code): each worker registers itself (`Add(1)`) when it starts running. -/
+  selfRegister : Bool := false
   deriving Repr, DecidableEq
 
 /-- The code before the two repairs. -/
@@ -54,6 +74,8 @@ def legacyCfg : Cfg := { cap := 10000, batchMax := 100 }
 def codeCfg : Cfg := { cap := 10000, batchMax := 100, drainOnDone := true, releaseSticky := true }
 /-- (kept name) the repaired configuration = the code as it is. -/
 def fixedCfg : Cfg := codeCfg
+/-- NOT the code: the workers register themselves in `runningWorkers` at their own start. -/
+def selfRegisterCfg : Cfg := { codeCfg with selfRegister := true }
 
 /-- Where the writing loop is. -/
 inductive WPc where
@@ -85,6 +107,9 @@ structure State where
   sawDone : Bool := false         -- the writing loop has taken the token
   released : Bool := false        -- ReleaseGoroutines has run (only read when releaseSticky)
   closeCompleted : Bool := false  -- Close() has returned
+  wStarted : Bool := false        -- the writing loop's goroutine has been scheduled for the first time
+  bStarted : Bool := false        -- the batching loop's goroutine has been scheduled for the first time
+  wg : Nat := 0                   -- counter of the WaitGroup `runningWorkers`
   deriving Repr, DecidableEq
 
 def init : State := {}
@@ -101,19 +126,30 @@ inductive Step where
   | writerWake
   | writeDone
   | closeReturn
+  | writerStart   -- the scheduler runs the writing loop's goroutine for the first time
+  | batchStart    -- the scheduler runs the batching loop's goroutine for the first time
   deriving Repr, DecidableEq
 
 /-- Every step that is not a publication. -/
 def Step.internal : List Step :=
-  [.batchRecv, .batchPush, .close, .batchDone, .broadcast, .writerSelect, .writerPop, .writerWake, .writeDone, .closeReturn]
+  [.batchRecv, .batchPush, .close, .batchDone, .broadcast, .writerSelect, .writerPop, .writerWake, .writeDone, .closeReturn,
+   .writerStart, .batchStart]
 
 /-- Sequence number the next event of producer `p` gets. -/
 def nextSeq (s : State) (p : Nat) : Nat := s.pubs.countP (fun e => e.1 == p)
 
 def delivered (s : State) : List Ev := s.written.flatten
 
-/-- Guards. `publish` reads the channel and the closed flag only. -/
-def enabled (c : Cfg) (s : State) : Step → Bool
+/-- The goroutine that takes the step has been scheduled at least once (producers and the caller
+    of Close are running by assumption; the start steps are the scheduler's). -/
+def started (s : State) : Step → Bool
+  | .batchRecv | .batchPush | .batchDone | .broadcast => s.bStarted
+  | .writerSelect | .writerPop | .writerWake | .writeDone => s.wStarted
+  | _ => true
+
+/-- Guards of the statements themselves. `publish` reads the channel and the closed flag only;
+    `closeReturn` is `runningWorkers.Wait()` returning: the counter is 0. -/
+def ready (c : Cfg) (s : State) : Step → Bool
   | .publish _ => !s.closed && decide (s.chan.length < c.cap)
   | .batchRecv => s.bpc == .loop && s.hand.isNone && !s.chan.isEmpty
   | .batchPush => s.bpc == .loop && s.hand.isSome
@@ -124,7 +160,12 @@ def enabled (c : Cfg) (s : State) : Step → Bool
   | .writerPop => s.wpc == .wantPop
   | .writerWake => s.wpc == .woken
   | .writeDone => s.wpc == .writing
-  | .closeReturn => s.closed && s.wpc == .exited && s.bpc == .exited && !s.closeCompleted
+  | .closeReturn => s.closed && s.wg == 0 && !s.closeCompleted
+  | .writerStart => !s.wStarted
+  | .batchStart => !s.bStarted
+
+/-- A step can be taken: its goroutine runs and its guard holds. -/
+def enabled (c : Cfg) (s : State) (st : Step) : Bool := started s st && ready c s st
 
 /-- `cond.Signal()` / `cond.Broadcast()` with a single possible waiter. -/
 def wake (w : WPc) : WPc := if w = .waiting then .woken else w
@@ -143,13 +184,13 @@ def fire (c : Cfg) (s : State) : Step → State
       { s with pubs := s.pubs ++ [e], chan := s.chan ++ [e] }
   | .batchRecv => { s with hand := s.chan.head?, chan := s.chan.tail }
   | .batchPush => { s with buf := s.buf ++ s.hand.toList, hand := none, wpc := wake s.wpc }
-  | .close => { s with closed := true }
+  | .close => { s with closed := true, wg := if c.selfRegister then s.wg else s.wg + 2 }
   | .batchDone => { s with doneTok := true, bpc := .signalled }
-  | .broadcast => { s with released := true, wpc := wake s.wpc, bpc := .exited }
+  | .broadcast => { s with released := true, wpc := wake s.wpc, bpc := .exited, wg := s.wg - 1 }
   | .writerSelect =>
       if s.doneTok || s.sawDone then
         let s' := { s with doneTok := false, sawDone := true }
-        if c.drainOnDone && !s'.buf.isEmpty then popBatch c s' else { s' with wpc := .exited }
+        if c.drainOnDone && !s'.buf.isEmpty then popBatch c s' else { s' with wpc := .exited, wg := s'.wg - 1 }
       else { s with wpc := .wantPop }
   | .writerPop =>
       if s.buf.isEmpty then
@@ -158,6 +199,8 @@ def fire (c : Cfg) (s : State) : Step → State
   | .writerWake => if s.buf.isEmpty then { s with wpc := .select } else popBatch c s
   | .writeDone => { s with wpc := .select }
   | .closeReturn => { s with closeCompleted := true }
+  | .writerStart => { s with wStarted := true, wg := if c.selfRegister then s.wg + 1 else s.wg }
+  | .batchStart => { s with bStarted := true, wg := if c.selfRegister then s.wg + 1 else s.wg }
 
 def step (c : Cfg) (s : State) (st : Step) : State := if enabled c s st then fire c s st else s
 
@@ -175,6 +218,9 @@ def runStrict (c : Cfg) (s : State) : List Step → Option State
 def allEnabled (c : Cfg) (s : State) : List Step → Bool
   | [] => true
   | st :: rest => enabled c s st && allEnabled c (step c s st) rest
+
+/-- Both workers have been scheduled: the prefix every schedule of a long-lived writer starts with. -/
+def bothStarted : List Step := [.writerStart, .batchStart]
 
 /-- Something other than a publication can still happen. -/
 def canProgress (c : Cfg) (s : State) : Bool := Step.internal.any (enabled c s)
